@@ -101,11 +101,12 @@ theorem prog_result_enumerated (S : Sys) (n f : Nat) (args : List Val) (st : Sta
     | unmodelled => simp
 
 /-- the only functions of the GENERATED table that contain a `raise` statement are `utils.print_error_message`
-    and `utils.print_missing_error_message` (positions 51, 52 of `progTable`): every ClassifyError of the
+    and `utils.print_missing_error_message` (stated by name): every ClassifyError of the
     productions is built there; IndexError / TypeError / UnboundLocalError come out of the leaf operations
     (`lObjects[i]`, `None + 1`, unassigned locals) and are found by the search (known findings of C19) -/
 theorem progTable_raise_sites :
-    failing Chk.noRaise (Gen.Prog.progTable.map (·.2)) = [51, 52] := by decide +kernel
+    failingNames Chk.noRaise Gen.Prog.progTable = ["utils.print_error_message", "utils.print_missing_error_message"] := by
+  decide +kernel
 
 /-- a run that ends in IndexError stops there: the state is returned as it was when the exception was raised
     (no token inserted or deleted), cf. `C04.prog_call_length` -/
